@@ -41,7 +41,7 @@ func (m kv) String() string {
 var (
 	c04Keys []string
 	c04Name = map[string]string{}
-	c04Vals = []string{"A", "B", "C"}
+	c04Vals = []string{"A", "B", "C", ""} // the empty value is a present value
 )
 
 func init() {
@@ -362,11 +362,11 @@ func TestC04(t *testing.T) {
 		for j := range c04Keys {
 			name := string(rune('a' + j))
 			if rng.IntN(2) == 0 {
-				c.Base[name] = c04Vals[rng.IntN(3)]
+				c.Base[name] = c04Vals[rng.IntN(len(c04Vals))]
 			}
 			switch rng.IntN(4) {
 			case 0:
-				c.Pending[name] = c04Vals[rng.IntN(3)]
+				c.Pending[name] = c04Vals[rng.IntN(len(c04Vals))]
 			case 1:
 				c.Pending[name] = "<deleted>"
 			}
@@ -382,7 +382,7 @@ func TestC04(t *testing.T) {
 			for s := 0; s < ln; s++ {
 				switch x := rng.IntN(10); {
 				case x < 4:
-					ops = append(ops, c04Op{Kind: "put", Key: rng.IntN(nkeys), Val: c04Vals[rng.IntN(3)]})
+					ops = append(ops, c04Op{Kind: "put", Key: rng.IntN(nkeys), Val: c04Vals[rng.IntN(len(c04Vals))]})
 				case x < 8:
 					ops = append(ops, c04Op{Kind: "del", Key: rng.IntN(nkeys)})
 				default:
